@@ -90,7 +90,18 @@ def expected_set(o):
     return {a: p for p, a in cands[:maxv]}
 
 
+def eb_abort(h):
+    """EndBlock never panics on the unchanged tree: a block that dies there returns no validator updates and releases nobody"""
+    for i, (op, io, mo) in enumerate(h["ops"]):
+        if io is not None and io.abort and op.split(" ")[0] == "EB":
+            return i, "EndBlock aborted (panic): no validator updates are returned and nobody due is released", {"kind": "endblock-aborts"}
+    return None
+
+
 def c05(h):
+    bad = eb_abort(h)
+    if bad:
+        return bad
     for i, op, o in obs_list(h):
         k = op.split(" ")[0]
         if k not in ("EB", "INIT"):
@@ -110,6 +121,9 @@ def c05(h):
 
 # ------------------------------------------------------------------ C06
 def c06(h):
+    bad = eb_abort(h)
+    if bad:
+        return bad
     L = obs_list(h)
     minstake0 = None
     for n, (i, op, o) in enumerate(L):
@@ -516,6 +530,11 @@ def c11(h):
             if o.sec.get(k) != p.sec.get(k):
                 return i, "rejected transaction changed state section %s" % k, {"kind": "trace-left", "section": k}
         b0, b1 = balances(p), balances(o)
+        # not even an empty account record may appear (except the fee collector's: the ante handler of a transaction
+        # that is refused only by its message handler has already paid the - possibly zero - fee into it)
+        born = set(b1) - set(b0) - {m["fee"]}
+        if born:
+            return i, "rejected transaction created account record(s) %s" % sorted(born), {"kind": "trace-left", "section": "A-keys"}
         if b0 != b1 and not basic_ok(spec):
             return i, "a statelessly invalid message (ValidateBasic fails) was charged a fee or moved balances", {"kind": "trace-left", "section": "A"}
         if b0 != b1:
@@ -538,7 +557,7 @@ def basic_ok(spec):
         if k == "send":
             return spec[1] not in ("", ".", "-") and spec[2] not in ("", ".", "-") and int(spec[3]) > 0
         if k == "dao":
-            return int(spec[3]) != 0 and spec[4] in ("1", "2") and not (spec[4] == "1" and spec[2] in ("", ".", "-"))
+            return int(spec[3]) != 0 and -2 ** 63 <= int(spec[3]) < 2 ** 63 and spec[4] in ("1", "2") and not (spec[4] == "1" and spec[2] in ("", ".", "-"))
         if k == "upgrade":
             return int(spec[2]) != 0
     except (ValueError, IndexError):
